@@ -86,8 +86,9 @@ def profile_prog(kind, profile, rng, handler=False, lets=(), extra_ops=False):
             for e in range(nops):
                 if k == 0 and e == 0 and rng.random() < 0.3 and d > 1:
                     continue        # some first steps consist of the initial value only
-                acts.append(Act(rng.choice(['Map', 'AndThen']) if extra_ops else 'Map',
-                                ['f%d_%d_%d' % (b, k, e)], deferred=(e == 0 and k > 0)))
+                # with extra_ops every one-operand operator may start a step (`~|>`, `~=>`, `~..m()`, `~<|`, `~<=`, `~!>`, `~??`, `~->`, `~?>`)
+                op = rng.choice(['Map', 'AndThen', 'Map', 'AndThen', 'Dot', 'Or', 'OrElse', 'MapErr', 'Inspect', 'Then', 'Filter']) if extra_ops else 'Map'
+                acts.append(Act(op, ['m%d_%d_%d()' % (b, k, e)] if op == 'Dot' else ['f%d_%d_%d' % (b, k, e)], deferred=(e == 0 and k > 0)))
             if k > 0 and not any(a.deferred for a in acts[-nops:]):
                 acts[-nops].deferred = True
         # make sure each step boundary exists exactly d-1 times
